@@ -442,8 +442,7 @@ func run(c *core.Ctx) error {
 	if len(a.hangs) > 0 {
 		c.Extra("hang_candidates", len(a.hangs))
 	}
-	hzWG.Wait()
-	c.Logf("hazards done at %.1fs", time.Since(t0).Seconds())
+	defer hzWG.Wait()
 
 	// ---------------- 4. TLC judges the recorded traces
 	sort.Slice(a.results, func(i, j int) bool { return a.results[i].Scenario.ID < a.results[j].Scenario.ID })
@@ -532,6 +531,8 @@ func run(c *core.Ctx) error {
 	c.Logf("trace validation done at %.1fs", time.Since(t0).Seconds())
 
 	raceWG.Wait()
+	hzWG.Wait()
+	c.Logf("hazards done at %.1fs", time.Since(t0).Seconds())
 	if devStress {
 		c.Inconclusive("VERIF_C11_DEV=stress: model, hazards and race detector skipped (development run)")
 	}
@@ -666,59 +667,64 @@ func runHazards(c *core.Ctx, bin string) {
 	var wg sync.WaitGroup
 	defer wg.Wait()
 	for i, h := range hzs {
-		acts, ok := hazardModel(c, h.cfg, h.want, h.pcs)
-		if !ok {
-			continue
-		}
-		engines := []string{h.engine}
-		if h.name == "fd" {
-			engines = []string{"disk", "ud"}
-		}
-		if h.name == "close2" {
-			engines = []string{"disk", "mem", "ud"}
-		}
-		for j, eng := range engines {
-			i, j, h, eng := i, j, h, eng
-			wg.Add(1)
-			go func() {
-				defer wg.Done()
-				// the handshake on goroutine states puts the run into the model's final state within
-				// milliseconds; the watchdog only bounds how long the blocked state is then observed
-				sc := Scenario{ID: 9000 + 10*i + j, Seed: c.Seed, Engine: eng, Workers: 2, Prepop: 50, Hazard: h.name, WatchdogS: 12}
-				co := runChild(c, bin, []Scenario{sc}, 10*time.Minute)
-				if co.err != nil || len(co.results) != 1 || co.results[0].Err != "" {
-					c.Inconclusive(fmt.Sprintf("hazard %s/%s: child failed: %v %s", h.name, eng, co.err, tail(co.stderr, 800)))
-					return
-				}
-				r := co.results[0]
-				c.Eval(1)
-				c.Extra("hazard_"+h.name+"_"+eng+"_model_schedule", acts)
-				if r.Hang != nil {
-					confirmHang(c, bin, r, h.sig+":"+engClass(eng))
-					return
-				}
-				tf, err := c.ValidateTrace("TraceProto", "TraceProto.cfg", eventsAny(r.Events))
-				if err != nil {
-					c.Inconclusive("TraceProto on hazard trace: " + err.Error())
-					return
-				}
-				c.Traces(1)
-				if tf == nil {
-					c.Logf("hazard %s on %s: the real code does not exhibit it (trace accepted)", h.name, eng)
-					c.Extra("hazard_"+h.name+"_"+eng, "not exhibited by the real code")
-					return
-				}
-				k := tf.Line - 2
-				ev := Event{}
-				if k >= 0 && k < len(r.Events) {
-					ev = r.Events[k]
-				}
-				c.Violation(h.sig+":"+engClass(eng),
-					fmt.Sprintf("hazard %s on the real code (%s): TLC (TraceProto) rejects the run, invariant %s at op=%s res=%s; schedule from TLC counterexample of %s: %v",
-						h.name, eng, tf.Invariant, ev.Op, ev.Res, h.cfg, acts),
-					map[string]any{"scenario": sc, "panics": r.Panics, "model_schedule": acts})
-			}()
-		}
+		i, h := i, h
+		wg.Add(1)
+		go func() {
+			defer wg.Done()
+			acts, ok := hazardModel(c, h.cfg, h.want, h.pcs)
+			if !ok {
+				return
+			}
+			engines := []string{h.engine}
+			if h.name == "fd" {
+				engines = []string{"disk", "ud"}
+			}
+			if h.name == "close2" {
+				engines = []string{"disk", "mem", "ud"}
+			}
+			for j, eng := range engines {
+				i, j, h, eng := i, j, h, eng
+				wg.Add(1)
+				go func() {
+					defer wg.Done()
+					// the handshake on goroutine states puts the run into the model's final state within
+					// milliseconds; the watchdog only bounds how long the blocked state is then observed
+					sc := Scenario{ID: 9000 + 10*i + j, Seed: c.Seed, Engine: eng, Workers: 2, Prepop: 50, Hazard: h.name, WatchdogS: 12}
+					co := runChild(c, bin, []Scenario{sc}, 10*time.Minute)
+					if co.err != nil || len(co.results) != 1 || co.results[0].Err != "" {
+						c.Inconclusive(fmt.Sprintf("hazard %s/%s: child failed: %v %s", h.name, eng, co.err, tail(co.stderr, 800)))
+						return
+					}
+					r := co.results[0]
+					c.Eval(1)
+					c.Extra("hazard_"+h.name+"_"+eng+"_model_schedule", acts)
+					if r.Hang != nil {
+						confirmHang(c, bin, r, h.sig+":"+engClass(eng))
+						return
+					}
+					tf, err := c.ValidateTrace("TraceProto", "TraceProto.cfg", eventsAny(r.Events))
+					if err != nil {
+						c.Inconclusive("TraceProto on hazard trace: " + err.Error())
+						return
+					}
+					c.Traces(1)
+					if tf == nil {
+						c.Logf("hazard %s on %s: the real code does not exhibit it (trace accepted)", h.name, eng)
+						c.Extra("hazard_"+h.name+"_"+eng, "not exhibited by the real code")
+						return
+					}
+					k := tf.Line - 2
+					ev := Event{}
+					if k >= 0 && k < len(r.Events) {
+						ev = r.Events[k]
+					}
+					c.Violation(h.sig+":"+engClass(eng),
+						fmt.Sprintf("hazard %s on the real code (%s): TLC (TraceProto) rejects the run, invariant %s at op=%s res=%s; schedule from TLC counterexample of %s: %v",
+							h.name, eng, tf.Invariant, ev.Op, ev.Res, h.cfg, acts),
+						map[string]any{"scenario": sc, "panics": r.Panics, "model_schedule": acts})
+				}()
+			}
+		}()
 	}
 }
 
